@@ -34,7 +34,9 @@ var (
 
 type memAddr string
 
+//go:norace
 func (a memAddr) Network() string { return "tcp" }
+//go:norace
 func (a memAddr) String() string  { return string(a) }
 
 type queue struct {
@@ -49,8 +51,10 @@ type MemConn struct {
 	Written       int // bytes written by this end
 }
 
+//go:norace
 func (c *MemConn) readable() bool { return c.closed || len(c.in.segs) > 0 || c.in.closed }
 
+//go:norace
 func (c *MemConn) Read(p []byte) (int, error) {
 	rt.Point(rt.OpIO, c, c.readable)
 	if c.closed {
@@ -74,6 +78,7 @@ func (c *MemConn) Read(p []byte) (int, error) {
 }
 
 // Pending reports whether unread inbound data exists (harness use).
+//go:norace
 func (c *MemConn) Pending() int {
 	n := 0
 	for _, s := range c.in.segs {
@@ -83,9 +88,12 @@ func (c *MemConn) Pending() int {
 }
 
 // PeerClosed: the other side closed its end.
+//go:norace
 func (c *MemConn) PeerClosed() bool { return c.in.closed }
+//go:norace
 func (c *MemConn) IsClosed() bool   { return c.closed }
 
+//go:norace
 func (c *MemConn) Write(p []byte) (int, error) {
 	rt.Point(rt.OpIO, c, nil)
 	if c.closed {
@@ -103,6 +111,7 @@ func (c *MemConn) Write(p []byte) (int, error) {
 	return len(p), nil
 }
 
+//go:norace
 func (c *MemConn) Close() error {
 	rt.Point(rt.OpIO, c, nil)
 	if c.closed {
@@ -115,13 +124,19 @@ func (c *MemConn) Close() error {
 	return nil
 }
 
+//go:norace
 func (c *MemConn) LocalAddr() Addr                    { return c.local }
+//go:norace
 func (c *MemConn) RemoteAddr() Addr                   { return c.remote }
+//go:norace
 func (c *MemConn) SetDeadline(t time.Time) error      { return nil }
+//go:norace
 func (c *MemConn) SetReadDeadline(t time.Time) error  { return nil }
+//go:norace
 func (c *MemConn) SetWriteDeadline(t time.Time) error { return nil }
 
 // Pipe creates a connected pair (server end, client end).
+//go:norace
 func Pipe(serverAddr, clientAddr string) (*MemConn, *MemConn) {
 	a, b := &queue{}, &queue{}
 	srv := &MemConn{in: a, out: b, local: memAddr(serverAddr), remote: memAddr(clientAddr)}
@@ -141,11 +156,14 @@ var ports = map[int]*MemListener{}
 var nextClientPort = 40000
 
 // ResetNet forgets all listeners (harness: start of an execution).
+//go:norace
 func ResetNet() { ports = map[int]*MemListener{}; nextClientPort = 40000 }
 
 // PortBound reports whether a live listener owns the port.
+//go:norace
 func PortBound(port int) bool { _, ok := ports[port]; return ok }
 
+//go:norace
 func Listen(network, address string) (Listener, error) {
 	rt.Point(rt.OpIO, nil, nil)
 	i := strings.LastIndex(address, ":")
@@ -168,6 +186,7 @@ func Listen(network, address string) (Listener, error) {
 	return l, nil
 }
 
+//go:norace
 func (l *MemListener) Accept() (Conn, error) {
 	rt.Point(rt.OpIO, l, func() bool { return l.closed || len(l.pending) > 0 })
 	if l.closed {
@@ -179,6 +198,7 @@ func (l *MemListener) Accept() (Conn, error) {
 	return c, nil
 }
 
+//go:norace
 func (l *MemListener) Close() error {
 	rt.Point(rt.OpIO, l, nil)
 	if l.closed {
@@ -199,9 +219,11 @@ func (l *MemListener) Close() error {
 	return nil
 }
 
+//go:norace
 func (l *MemListener) Addr() Addr { return l.addr }
 
 // DialMem connects to the in-memory listener on port; the returned Conn is the client end.
+//go:norace
 func DialMem(port int) (*MemConn, error) {
 	rt.Point(rt.OpIO, nil, nil)
 	l, ok := ports[port]
@@ -215,6 +237,7 @@ func DialMem(port int) (*MemConn, error) {
 	return cli, nil
 }
 
+//go:norace
 func Dial(network, address string) (Conn, error) {
 	i := strings.LastIndex(address, ":")
 	port, err := strconv.Atoi(address[i+1:])
